@@ -13,7 +13,7 @@ its definition is omitted (a comment says why), the theorem about it no longer c
 
 Also emits structural facts as literals: the sequence of method calls in `QRCode.makeImpl` / `make` and loop ranges.
 """
-import argparse, ast, json, os, sys
+import argparse, ast, json, os, re, sys
 
 
 class Untranslatable(Exception):
@@ -195,6 +195,7 @@ def gen(repo):
         _TRACE["cur"] = name
         try:
             out.append(fn())
+            _TRACE.setdefault("defs", {})[name] = re.findall(r"^(?:private )?(?:def|abbrev|inductive|structure|instance|theorem) ([A-Za-z_][A-Za-z0-9_.']*)", out[-1], flags=re.M)
             status[name] = "ok"
         except Untranslatable as e:
             out.append(f"-- {name}: UNTRANSLATABLE ({e})")
@@ -614,6 +615,8 @@ def main():
         json.dump(status, f, indent=0, sort_keys=True)
     with open(os.path.join(a.out, "code_sources.json"), "w") as f:
         json.dump({str(k): sorted(v) for k, v in _TRACE["src"].items()}, f, indent=0, sort_keys=True)
+    with open(os.path.join(a.out, "code_defs.json"), "w") as f:
+        json.dump(_TRACE.get("defs", {}), f, indent=0, sort_keys=True)
     print(json.dumps({"code_changed": old != text, "untranslatable": {k: v for k, v in status.items() if v != "ok"}}))
 
 
